@@ -96,6 +96,20 @@ impl GenericParamSet {
                 }
                 visit_path(self, i);
             }
+            fn visit_macro(&mut self, i: &'ast syn::Macro) {
+                // The arguments of a type macro are plain tokens: a parameter named there counts as mentioned.
+                fn scan(generics: &GenericParamSet, ts: proc_macro2::TokenStream) -> bool {
+                    ts.into_iter().any(|t| match t {
+                        proc_macro2::TokenTree::Ident(i) => generics.contains(&i),
+                        proc_macro2::TokenTree::Group(g) => scan(generics, g.stream()),
+                        _ => false,
+                    })
+                }
+                if scan(self.generics, i.tokens.clone()) {
+                    self.result = true;
+                }
+                syn::visit::visit_macro(self, i);
+            }
         }
         let mut visitor = Visitor {
             generics: self,
